@@ -137,6 +137,7 @@ func c05Corpus() [][3]map[string]interface{} {
 		{m{"l": a{int64(1), int64(2)}}, m{"l": a{int64(1)}}, m{"l": a{int64(3)}}},
 		{m{"l": a{m{"name": "a"}}}, m{}, m{"l": nil}},
 		{m{"l": a{int64(1)}}, m{}, m{"l": nil}},
-		{m{"x": 1.5, "y": int64(1)}, m{"x": 1.5}, m{"y": 1.0}},
+		{m{"x": 1.5, "y": int64(1)}, m{"x": 1.5}, m{"y": 2.5}},
+		{m{"a": a{m{"name": "a"}}}, m{"a": a{m{"name": "a"}}}, m{"a": nil}}, // D25: explicit null over a list map: [] then null
 	}
 }
